@@ -66,6 +66,11 @@ var sinkContexts = []sinkCtx{
 	{"html-block", "<div §>", coreExts, false},
 	{"html-inline", "a <b §>", coreExts, false},
 	{"html-comment", "<!-- § -->", coreExts, false},
+	{"html-comment-tight", "<!--§-->", coreExts, false},
+	{"html-comment-inline", "a <!--§--> b", coreExts, false},
+	{"html-pi-inline", "a <?§?> b", coreExts, false},
+	{"html-cdata-inline", "a <![CDATA[§]]> b", coreExts, false},
+	{"html-decl-inline", "a <!A §> b", coreExts, false},
 	{"attr-id", "# h {#§}", coreExts, true},
 	{"attr-class", "# h {.§}", coreExts, true},
 	{"attr-kv", "# h {k=§}", coreExts, true},
